@@ -442,6 +442,121 @@ func genPoolSrc(repo string) (string, error) {
 		}
 	}
 
+	// ---- resource manager: do Increase / Decrease count while the limit is 0 (unlimited)?
+	resCountsUnlimited := false
+	{
+		fs, ff, err := ParseGoFile(repo, "pkg/upstream/cluster/resource_manager.go")
+		if err != nil {
+			return "", err
+		}
+		shape := map[string]string{}
+		for _, m := range []string{"Increase", "Decrease"} {
+			fd := FindFunc(ff, "resource", m)
+			if fd == nil {
+				bad("resource.%s not found", m)
+				continue
+			}
+			shape[m] = exprStr(fs, fd.Body)
+		}
+		inc, dec := shape["Increase"], shape["Decrease"]
+		switch {
+		case inc == "{atomic.AddInt64(&r.current,1)}" && dec == "{atomic.AddInt64(&r.current,-1)}":
+			resCountsUnlimited = true
+		case inc == "{ifr.max!=0{atomic.AddInt64(&r.current,1)}}" && dec == "{ifr.max!=0{atomic.AddInt64(&r.current,-1)}}":
+			resCountsUnlimited = false
+		default:
+			bad("resource.Increase / Decrease: unrecognised bodies %q / %q", inc, dec)
+		}
+		if fd := FindFunc(ff, "resource", "CanCreate"); fd == nil {
+			bad("resource.CanCreate not found")
+		} else if c := exprStr(fs, fd.Body); !strings.Contains(c, "r.max==0") && !strings.Contains(c, "max==0") {
+			bad("resource.CanCreate: no unlimited case recognised: %q", c)
+		}
+	}
+
+	// ---- ping-pong GetActiveClient, no idle client: is totalClientCount incremented inside the critical section of the
+	// max_connections test (Model/PoolInit.v pp_connect_prog, Model/PoolAdmit.v conn_prog)
+	ppCountLocked := false
+	{
+		fs, ff, err := ParseGoFile(repo, "pkg/stream/xprotocol/connpool_pingpong.go")
+		if err != nil {
+			return "", err
+		}
+		found := 0
+		if fd := FindFunc(ff, "poolPingPong", "GetActiveClient"); fd != nil {
+			ast.Inspect(fd.Body, func(x ast.Node) bool {
+				is, isIf := x.(*ast.IfStmt)
+				if !isIf || exprStr(fs, is.Cond) != "maxConns==0||p.totalClientCount.Load()<maxConns" {
+					return true
+				}
+				found++
+				iInc, iUnlock, iDial, iLate := -1, -1, -1, -1
+				for i, st := range is.Body.List {
+					txt := exprStr(fs, st)
+					switch {
+					case txt == "p.totalClientCount.Inc()":
+						iInc = i
+					case txt == "p.clientMux.Unlock()":
+						iUnlock = i
+					case containsCall(st, "newActiveClient"):
+						iDial = i
+					case strings.Contains(txt, "p.totalClientCount.Inc()"):
+						iLate = i
+					}
+				}
+				switch {
+				case iInc >= 0 && iInc < iUnlock && iUnlock < iDial && iLate < 0 && strings.Contains(exprStr(fs, is.Body), "ifc==nil||reason!=\"\"{p.totalClientCount.Dec()}"):
+					ppCountLocked = true
+				case iInc < 0 && iUnlock >= 0 && iUnlock < iDial && iDial < iLate:
+					ppCountLocked = false
+				default:
+					bad("ping-pong GetActiveClient: unrecognised order of count (%d/%d), unlock (%d), dial (%d)", iInc, iLate, iUnlock, iDial)
+				}
+				return true
+			})
+		}
+		if found != 1 {
+			bad("ping-pong GetActiveClient: %d max connections tests recognised", found)
+		}
+	}
+
+	// ---- HTTP/1 client stream connection: data from the upstream while no request is outstanding closes the connection
+	httpIdleDataCloses := false
+	{
+		fs, ff, err := ParseGoFile(repo, "pkg/stream/http/stream.go")
+		if err != nil {
+			return "", err
+		}
+		guard, set1, set0, spare := false, false, false, false
+		if fd := FindFunc(ff, "clientStreamConnection", "Dispatch"); fd != nil {
+			ast.Inspect(fd.Body, func(x ast.Node) bool {
+				if is, isIf := x.(*ast.IfStmt); isIf && exprStr(fs, is.Cond) == "atomic.LoadInt32(&conn.awaiting)==0" && containsCall(is.Body, "Close") && strings.Contains(exprStr(fs, is.Body), "return") {
+					guard = true
+				}
+				return true
+			})
+		}
+		if fd := FindFunc(ff, "clientStream", "doSend"); fd != nil && len(fd.Body.List) > 0 {
+			set1 = exprStr(fs, fd.Body.List[0]) == "atomic.StoreInt32(&s.connection.awaiting,1)"
+		}
+		if fd := FindFunc(ff, "clientStreamConnection", "serve"); fd != nil {
+			txt := exprStr(fs, fd.Body)
+			iRead, iClr, iHandle := strings.Index(txt, "s.response.Read(conn.br)"), strings.Index(txt, "atomic.StoreInt32(&conn.awaiting,0)"), strings.LastIndex(txt, "s.handleResponse()")
+			set0 = iRead >= 0 && iRead < iClr && iClr < iHandle
+			spare = strings.Contains(txt, "ifconn.br.Buffered()>0{resetConn=true}")
+		} else {
+			bad("http clientStreamConnection.serve not found")
+		}
+		switch {
+		case guard && set1 && set0 && spare:
+			httpIdleDataCloses = true
+		case !guard && !set1 && !set0 && !spare:
+			httpIdleDataCloses = false
+		default:
+			bad("http client stream connection: partial idle-data handling (guard %v, set on send %v, cleared after the response %v, trailing bytes %v)", guard, set1, set0, spare)
+		}
+	}
+
 	// ---- HTTP/2 pool: connection accounting (Model/PoolH2.v, Model/PoolH2Race.v)
 	h2Identity, h2SkipGoaway, h2DecOnDrop, h2DialLocked := false, false, false, false
 	{
@@ -624,6 +739,9 @@ func genPoolSrc(repo string) (string, error) {
 		fmt.Fprintf(&b, "Definition poolacct_src_%s : apolicy := mkAP %v %v.\n", n, acct[n][0], acct[n][1])
 	}
 	fmt.Fprintf(&b, "Definition poolacct_src_destroy_oneway : bool := %v.\n", destroyOneway)
+	fmt.Fprintf(&b, "Definition poolres_src_counts_unlimited : bool := %v.\n", resCountsUnlimited)
+	fmt.Fprintf(&b, "Definition poolinit_src_pp_count_locked : bool := %v.\n", ppCountLocked)
+	fmt.Fprintf(&b, "Definition poolhttp_src_idle_data_closes : bool := %v.\n", httpIdleDataCloses)
 	fmt.Fprintf(&b, "Definition poolh2_src_switches : h2sw := mkH2Sw %v %v %v.\n", h2Identity, h2SkipGoaway, h2DecOnDrop)
 	fmt.Fprintf(&b, "Definition poolh2_src_dial_locked : bool := %v.\n", h2DialLocked)
 	fmt.Fprintf(&b, "Definition PoolSrc_translator_ok := %v.\n", ok)
